@@ -64,12 +64,21 @@ func (g *graph[T]) leaves() []*vertex[T] {
 	return res
 }
 
-// descendents return all descendents for a vertex, might contain duplicates
+// descendents return all descendents for a vertex
 func (v *vertex[T]) descendents() []string {
 	var vx []string
-	for _, n := range v.children {
-		vx = append(vx, n.key)
-		vx = append(vx, n.descendents()...)
+	seen := map[string]bool{}
+	var collect func(v *vertex[T])
+	collect = func(v *vertex[T]) {
+		for _, n := range v.children {
+			if seen[n.key] {
+				continue
+			}
+			seen[n.key] = true
+			vx = append(vx, n.key)
+			collect(n)
+		}
 	}
+	collect(v)
 	return vx
 }
